@@ -91,6 +91,13 @@ fn sweep(cx: &Cx, world: &World, mode: SweepMode) -> Value {
         }
         v
     };
+    // ... and so is the parallel one (delivered in any order: sorted here)
+    let joinp: Vec<Value> = {
+        use rayon::iter::ParallelIterator;
+        let mut v: Vec<Entity> = (&ents).par_join().collect();
+        v.sort();
+        v.into_iter().map(hj).collect()
+    };
     let walive: Vec<u8> = if mode == SweepMode::Full {
         hs.iter()
             .map(|&h| if world.is_alive(h) { 1 } else { 0 })
@@ -100,7 +107,7 @@ fn sweep(cx: &Cx, world: &World, mode: SweepMode) -> Value {
     };
     drop(ents);
     let st: Vec<Value> = cx.stores.iter().map(|s| s.sweep(world, &hs)).collect();
-    json!({"hs": hs.iter().map(|&h| hj(h)).collect::<Vec<_>>(), "alive": alive, "walive": walive, "join": join, "joinl": joinl, "st": st})
+    json!({"hs": hs.iter().map(|&h| hj(h)).collect::<Vec<_>>(), "alive": alive, "walive": walive, "join": join, "joinl": joinl, "joinp": joinp, "st": st})
 }
 
 fn handle(cx: &Cx, k: &Value) -> Option<Entity> {
